@@ -166,6 +166,19 @@ def pieces_of(t):
     return merged
 
 
+def merged(pieces):
+    """adjacent constant pieces joined (every structural operation works on this normal form)"""
+    out = []
+    for pc in pieces:
+        if pc.const is not None and out and out[-1].const is not None:
+            out[-1] = Piece(const=out[-1].const + pc.const)
+        elif pc.const is not None and pc.const == "":
+            continue
+        else:
+            out.append(pc)
+    return out
+
+
 def concat(pieces):
     ts = [pc.z3() for pc in pieces]
     if not ts:
@@ -228,6 +241,7 @@ def never_starts_in(R, C):
 def split_first(pieces, sep):
     """(before, after) around the FIRST occurrence of the constant `sep`, structurally; None if there is none for sure;
     UNKNOWN if a symbolic piece in front of the first constant occurrence might contain characters of sep"""
+    pieces = merged(pieces)
     for i, pc in enumerate(pieces):
         if pc.const is None:
             # up to here no occurrence: this piece must not contain (or complete) one
@@ -267,6 +281,7 @@ def _straddles(pieces, i, sep):
 
 def splitlines_bytes(pieces):
     """bytes.splitlines() structurally (line breaks: CRLF, CR, LF); UNKNOWN unless every symbolic piece is free of CR/LF"""
+    pieces = merged(pieces)
     for i, pc in enumerate(pieces):
         if pc.const is None and avoids_chars(pc.regex, "\r\n") is not True:
             return UNKNOWN
@@ -295,7 +310,11 @@ def splitlines_bytes(pieces):
         if start < len(s):
             cur.append(Piece(const=s[start:]))
     if cur:
-        lines.append(cur)
+        # the text after the last line break is a line only if it is not empty
+        if any(pc.const is not None or never_empty(pc.regex) is True for pc in cur):
+            lines.append(cur)
+        else:
+            return UNKNOWN
     return lines
 
 
@@ -309,6 +328,7 @@ def never_ends_in(R, C):
 
 def strip_chars(pieces, chars):
     """s.strip(chars) on the structure: the list of pieces that remain; UNKNOWN when a boundary is not decided"""
+    pieces = merged(pieces)
     from . import sym
     ps = list(pieces)
     # leading constants made of strip characters only
@@ -351,6 +371,7 @@ def replace_all_char(pieces, old, new):
     """s.replace(old, new) on the structure, for a constant `old` of one or more characters: exact when no symbolic piece can
     contain a character of `old` and no occurrence can be formed across a possibly empty symbolic piece by its constant
     neighbours (then every occurrence lies inside one constant piece); UNKNOWN otherwise"""
+    pieces = merged(pieces)
     if len(old) < 1:
         return UNKNOWN
     out = []
@@ -369,6 +390,7 @@ def replace_all_char(pieces, old, new):
 def slice_const_edges(pieces, start, stop):
     """s[start:stop] with constant bounds (start >= 0 counted from the left, stop <= 0 counted from the right, None = open)
     when the characters cut off lie in constant pieces at the two ends: the remaining pieces; UNKNOWN otherwise"""
+    pieces = merged(pieces)
     ps = list(pieces)
     a = start or 0
     b = -(stop or 0)
@@ -399,6 +421,7 @@ def slice_const_edges(pieces, start, stop):
 
 def split_char(pieces, sep):
     """s.split(sep) for a single character: exact when no symbolic piece can contain sep; UNKNOWN otherwise"""
+    pieces = merged(pieces)
     if len(sep) != 1:
         return UNKNOWN
     fields = [[]]
@@ -419,6 +442,7 @@ def split_char(pieces, sep):
 
 def contains_char(pieces, ch):
     """`ch in s` for a single character: True / False / UNKNOWN"""
+    pieces = merged(pieces)
     if len(ch) != 1:
         return UNKNOWN
     maybe = False
@@ -434,6 +458,7 @@ def contains_char(pieces, ch):
 def split_ws_once(pieces, ws):
     """s.split(None, 1) on the structure: [] | [field] | [field, rest]; UNKNOWN when a symbolic piece might contain
     white space where it matters (the rest after the first white-space run is taken as it is, whatever it contains)"""
+    pieces = merged(pieces)
     state = 0          # 0: leading white space, 1: inside the first field, 2: white space after the field
     field = []
     for i, pc in enumerate(pieces):
